@@ -936,7 +936,44 @@ def check(run, terrs):
         level="proof", rule=RULE)
 
 
+SRC_OBLIGATIONS = ("translator.GenSets", "C10.C10_model_is_translated_source", "C10.C10_translated_")
+
+
+def source_tie_cases():
+    """small sorted sets (and a few non-sets) for the merges whose translated text no longer equals the hand
+    model: all pairs of duplicate-free ascending subsets of {0,1,2,3} (empty sides included), key functions that
+    tie / reverse / fail on the same arrays, removeAt at every index -2..len+2 of arrays with distinct elements"""
+    import itertools
+    cases = []
+    subsets = [list(c) for n in range(0, 5) for c in itertools.combinations([0, 1, 2, 3], n)]
+    for a in subsets:
+        for b in subsets:
+            for fn in ("CSetUnion", "CSetInter", "CSetDiff"):
+                cases.append((fn, a, b, None))
+    small = [list(c) for n in range(0, 4) for c in itertools.combinations([0, 1, 2], n)]
+    for k in ("FMod2", "FNeg", "FConst", "FId", "FErr"):
+        for a in small:
+            for b in small:
+                for fn in ("CSetUnion", "CSetInter", "CSetDiff"):
+                    cases.append((fn, a, b, k))
+                    if k == "FNeg":
+                        cases.append((fn, a[::-1], b[::-1], k))
+    for n in range(0, 6):
+        arr = list(range(n))
+        for at in range(-2, n + 3):
+            cases.append(("CRemoveAt", arr, at))
+    return cases
+
+
 def search(run, binary):
+    src = [n for n, ok, _ in run.obligations if not ok and n.startswith(SRC_OBLIGATIONS)]
+    if src:
+        # the text translated from sets.rs / arrays.rs no longer equals the hand model (or could not be translated):
+        # look for a concrete call where the code leaves the reference definition
+        run.log(f"search: source-tie obligation(s) broke ({', '.join(src)[:200]}): targeted set / removeAt probes")
+        f, _ = correspond(run, binary, source_tie_cases())
+        if f:
+            return f
     run.log("search: thorough-scope enumeration")
     old = run.tier
     run.tier = "thorough"
@@ -992,7 +1029,16 @@ TRUSTED = ["Coq 8.16.1 kernel incl. vm_compute (no native_compute)",
            "correspondence: jrharness eval, vlib generators, Coq term printer/parser, the Jsonnet text of the "
            "function pool (FN_JS/FN2_JS) vs Model.apply/apply2 — itself exercised by the std.map/foldl cases",
            "IEEE division of std.avg done by Python on the exact quotient the model returns"]
-ASSUMPTIONS = ["impl-model transliterates sets.rs / sort.rs / arrays.rs loops; tie = differential run on every check",
+ASSUMPTIONS = ["impl-model transliterates sets.rs / sort.rs / arrays.rs loops; tie = differential run on every check; "
+               "for builtin_set_union, builtin_set_diff and builtin_remove_at additionally a SOURCE tie: "
+               "translator/gens/setops.py turns their statements into Gen/GenSets.v on every run and "
+               "C10_model_is_translated_source_{union,diff,remove_at} prove translated = hand model for all inputs "
+               "(setInter is translated and run in an Example, its equality is not proved yet; setMember and "
+               "get_sort_type are not translated)",
+               "source tie vocabulary (fixed text of the translator, trusted): iterators as remaining lists, "
+               "Option::map(keyF).transpose()?, expect = panic, checked i32 `+`, `as usize`, ArrValue::slice's clamps "
+               "(whose three arms the translator pins in arr/mod.rs); a while loop = sloop with fuel 1+|a|+|b|, shown "
+               "never to run out",
                "numbers in cases are small integers (number equality / comparison semantics are C09's)",
                "part More: an element is a value or a failure (which elements are forced is judged; sharing and "
                "evaluation counts are C03's); everywhere else values are fully evaluated",
